@@ -125,7 +125,8 @@ Ops(st) ==
     \cup [k : {"commit", "rollback"}, c : {c}, api : {"sql", "conn"}]
     \cup (IF ScriptsUsed
           THEN UNION {{[k |-> "script", c |-> c, items |-> <<a1, a2>>] : a2 \in ScriptItems(Apply(st, c, a1).post, c)} :
-                      a1 \in {a \in ScriptItems(st, c) : a.k # "nop"}}
+                      a1 \in {a \in ScriptItems(st, c) : a.k \in {"use", "set"} \/ (a.k = "ins" /\ a.src = "lit")}}
+               \* (first statements: the ones with an effect the second one can depend on; keeps scripts from crowding the walks)
           ELSE {})
     : c \in Conn}
 IsErr(r) == IsErrR(r.obs.res[Len(r.obs.res)])
